@@ -11,6 +11,11 @@ import (
 	"strings"
 )
 
+// maxRequestBodySize limits the body of a request which writes characteristics. Requests of some
+// hundred characteristics are far smaller; without a limit a controller makes the accessory
+// buffer (and copy) a body of any size.
+const maxRequestBodySize = 1 << 20
+
 type CharacteristicsResponse struct {
 	Characteristics []CharacteristicResponse `json:"characteristics"`
 }
@@ -106,7 +111,7 @@ func (srv *Server) Characteristics(w http.ResponseWriter, r *http.Request) {
 		WriteJSON(w, r, &CharacteristicsResponse{arr})
 	case hap.MethodPUT:
 		log.Debug.Printf("%v PUT /characteristics", r.RemoteAddr)
-		b, err := ioutil.ReadAll(r.Body)
+		b, err := ioutil.ReadAll(http.MaxBytesReader(w, r.Body, maxRequestBodySize))
 		if err != nil {
 			log.Debug.Println(err)
 		} else {
